@@ -17,6 +17,11 @@ RULE = ("table: every table with <=6 rows (thorough: <=7) x 1 key, <=4 rows (tho
         "must satisfy the executable contract checkTable (permutation, pairwise lexicographic order under the "
         "specified key order, every tie class in original order), equal the model's sort loop, every column must be "
         "the input column taken through that index list, and the input must be unchanged. "
+        "Gap-analysis additions: key pools of ONE type at the ends of its range (largest/smallest ints, strings, dates, bools, floats, "
+        "signed zeros), print-alike strings, tuples; vectors of 64-600 elements (biased to equal values with distinct identities), "
+        "temporal vectors, vectors that are named / built with a declared dtype / live table columns / the rewritten result of an earlier "
+        "sort_by with the same or the OPPOSITE direction and None placement (warm 1-3, tables likewise); tables renamed through their "
+        "live column views after a first sort; tables whose int columns carry a declared non-nullable dtype although they hold None. "
         "non-trivial = at least two rows/elements and a tie or a None among the keys, or a result order that "
         "differs from the input order")
 ASSUMPTIONS = [
@@ -99,11 +104,21 @@ POOLS = [
     # temporal keys (tagged strings, decoded by _dec): several times of day on one calendar day, and plain dates
     ["T:2020-01-01T05:30:00", "T:2020-01-01T00:00:00", "T:2020-01-01T23:59:59", "T:2020-01-02T00:00:00", "T:2019-12-31T12:00:00", None],
     ["D:2020-01-01", "D:2020-01-02", "D:2019-12-31", None],
+    # columns of ONE type at the ends of that type's range: whatever stands in for None on a typed fast path (a largest / smallest
+    # int, string, date, bool) is a real key here
+    [True, False, None], [True, None], [False, None],
+    [2 ** 63 - 1, -2 ** 63, 2 ** 63, 0, None], [2 ** 31 - 1, -2 ** 31, -1, None], [10 ** 30, -10 ** 30, 5, None],
+    ["\U0010ffff", "\uffff", "a", "", None], ["", None], ["~", "z", "\x7f", "\x00", None], ["a", "A", "a ", " a", "B", None],
+    ["D:0001-01-01", "D:9999-12-31", "D:2020-01-01", None], ["T:0001-01-01T00:00:00", "T:9999-12-31T23:59:59.999999", "T:2020-01-01T00:00:00", None],
+    [0.0, -0.0, 0, False, None], [1e308, -1e308, 5e-324, -5e-324, 0.0, None],
+    [[1, 2], [1], [], [0, 5], [1, 2, 0], None],          # tuples (decoded by _dec): compared lexicographically
 ]
 
 
 def _dec(x):
     import datetime as _dt
+    if isinstance(x, list):
+        return tuple(x)
     if isinstance(x, str) and x[:2] == "T:":
         return _dt.datetime.fromisoformat(x[2:])
     if isinstance(x, str) and x[:2] == "D:":
@@ -129,6 +144,10 @@ def _random_table(rng, i, big):
     by_form = rng.choice(["single", "list", "tuple"]) if nkeys == 1 else rng.choice(["list", "tuple"])
     rev_form = rng.choice(["bool", "list", "tuple"]) if len(set(revs)) == 1 else rng.choice(["list", "tuple"])
     s = _table_spec(i, keycols, revs, rng.random() < 0.5, extra, rng.randint(0, 4), (ksrc, by_form, rev_form))
+    if rng.random() < 0.15:
+        s["renamed"] = True
+    if rng.random() < 0.15:
+        s["declared"] = True
     for k in s["by"]:
         if "vec" in k and s["names"] and rng.random() < 0.5:
             k["vname"] = rng.choice(s["names"])
@@ -282,8 +301,19 @@ def _generate(rng, tier):
     for i in range(nrand):
         pool = rng.choice(POOLS)
         n = rng.randint(5, 30)
-        yield {"fam": "vector", "data": [rng.choice(pool) for _ in range(n)],
-               "reverse": rng.random() < 0.5, "na_last": rng.random() < 0.5}
+        if i % 15 == 0:
+            n = rng.choice([64, 65, 129, 130, 257, 300, 600])   # beyond the sizes at which a sort might switch strategy
+            if rng.random() < 0.6:
+                # equal values with distinct identities: the only elements on which a vector shows whether its sort is stable
+                pool = rng.choice([[1, True, 1.0, 0, False, None], [0.0, -0.0, 0, False, None], [1, True, 1.0, 2, 2.0]])
+        v = {"fam": "vector", "data": [rng.choice(pool) for _ in range(n)],
+             "reverse": rng.random() < 0.5, "na_last": rng.random() < 0.5}
+        if i % 2:
+            # where the vector comes from: named, with a declared dtype, a live column of a table, the (rewritten) result of an
+            # earlier sort_by
+            v["vstate"] = {"name": rng.choice([None, "v", "a b"]), "declared": rng.random() < 0.3, "view": rng.random() < 0.3,
+                           "warm": rng.choice([0, 0, 1, 2, 3])}
+        yield v
     # the larger exhaustive scopes last, so that a budget cut never loses the families above
     yield from _exhaustive_tables(1, 7 if thorough else 6, counter, 5)
     yield from _exhaustive_tables(2, 5 if thorough else 4, counter, 4)
@@ -302,7 +332,7 @@ def generate(rng, tier):
         if s.get("fam") == "table" and s.get("n") and all("name" in b or "col" in b for b in s.get("by", [])):
             k += 1
             if k % 4 == 0:
-                yield dict(s, warm=1 + (k // 4) % 2)
+                yield dict(s, warm=1 + (k // 4) % 3)
 
 # --------------------------------------------------------------------------------------
 # execution on the real code
@@ -329,17 +359,41 @@ def _all_cols(spec):
 def _build(spec):
     from serif import Table, Vector
     names, cols = _all_cols(spec)
-    t = Table({nm: list(c) for nm, c in zip(names, cols)})
+    def _table(nms, cs):
+        if spec.get("declared"):
+            # columns built with a DECLARED plain dtype (`Vector(cells, dtype=int)`, non-nullable by construction) although None is
+            # present: the sort must go by the cells, not by the schema
+            return Table([Vector(list(c), dtype=int, name=nm) if any(x is None for x in c) and any(x is not None for x in c)
+                          and all(type(x) is int for x in c if x is not None) else Vector(list(c), name=nm) for nm, c in zip(nms, cs)])
+        return Table({nm: list(c) for nm, c in zip(nms, cs)})
+    t = _table(names, cols)
+    if spec.get("warm") == 3 and not all(isinstance(x, bool) for x in (spec["reverse"] if isinstance(spec["reverse"], list) else [spec["reverse"]])):
+        spec = dict(spec, warm=1)
+    if spec.get("renamed") and not spec.get("warm"):
+        # the table was built and sorted once under other column names (the final ones rotated by one column); the names of the
+        # spec are then given through the live column views — a name looked up or remembered before that is stale
+        t = _table([names[(j + 1) % len(names)] for j in range(len(names))], cols)
+        try:
+            t.sort_by(names[0])
+            t.sort_by([nm for nm in names])
+        except Exception:
+            pass
+        for c, nm in zip(t.cols(), names):
+            c.name = nm
     if spec.get("warm") and spec["n"] and all(("name" in k and k["name"] in names) or "col" in k for k in spec["by"]):
         # the judged table is itself the result of an earlier sort_by with the very same keys, directions and None placement,
         # whose cells were then overwritten in place through its live column views: whatever that result remembers about
         # being sorted (or about its key order) is stale when the judged call runs
         try:
-            t0 = Table({nm: list(reversed(c)) for nm, c in zip(names, cols)})
+            t0 = _table(names, [list(reversed(c)) for c in cols])
             by0 = [k.get("name", k.get("col")) for k in spec["by"]]
             rv0 = spec["reverse"]
             rev0 = bool(rv0) if spec["rev_form"] == "bool" else list(rv0)
-            s0 = t0.sort_by(by0 if spec["by_form"] != "single" else by0[0], reverse=rev0, na_last=spec["na_last"])
+            if spec["warm"] == 3:
+                # ... the earlier sort went the opposite way on every key (and put None at the other end)
+                rev0 = (not rev0) if isinstance(rev0, bool) else [not x for x in rev0]
+            s0 = t0.sort_by(by0 if spec["by_form"] != "single" else by0[0], reverse=rev0,
+                            na_last=spec["na_last"] if spec["warm"] != 3 or spec["n"] % 2 else not spec["na_last"])
             if spec["warm"] == 2:
                 s0.sort_by(by0 if spec["by_form"] != "single" else by0[0], reverse=rev0, na_last=spec["na_last"])
             views = list(s0.cols())
@@ -449,12 +503,40 @@ def execute(spec):
 
 
 def _exec_vector(spec, it):
-    from serif import Vector
-    data = list(spec["data"])
-    v = Vector(list(data))
+    from serif import Vector, Table
+    data = [_dec(x) for x in spec["data"]]
+    st = spec.get("vstate") or {}
+
+    def mk(vals):
+        vals = list(vals)
+        if st.get("view"):
+            return Table({st.get("name") or "a": vals, "zz": list(range(len(vals)))}).cols()[0]
+        if st.get("declared") and vals and all(type(x) is int for x in vals if x is not None) and any(x is not None for x in vals):
+            return Vector(vals, dtype=int, name=st.get("name"))
+        return Vector(vals, name=st.get("name"))
+    v = None
+    if st.get("warm") and data:
+        # the judged vector is the result of an earlier sort_by with the same arguments (sorted once more for warm == 2) whose
+        # elements were then overwritten in place: whatever it remembers about being sorted is stale
+        try:
+            r0 = mk(reversed(data)).sort_by(reverse=spec["reverse"] if st["warm"] != 3 else not spec["reverse"],
+                                            na_last=spec["na_last"] if st["warm"] != 3 or len(data) % 2 else not spec["na_last"])
+            if st["warm"] == 2:
+                r0.sort_by(reverse=spec["reverse"], na_last=spec["na_last"])
+            for i, x in enumerate(data):
+                if r0[i] is not x and not (r0[i] == x and type(r0[i]) is type(x)):
+                    r0[i] = x
+            if len(r0) == len(data) and all(a is b or (a == b and type(a) is type(b)) for a, b in zip(list(r0), data)):
+                v = r0
+        except Exception:
+            v = None
+    if v is None:
+        v = mk(data)
     ws = it.wires(list(v))
     if len(ws) != len(data):
         return {"skip": "vector could not be built as specified"}
+    if any(not (a is b or (a == b and type(a) is type(b))) for a, b in zip(list(v), data)):
+        return {"skip": "vector does not hold the elements as specified (construction converted them)"}
     cells = _ranks(data)
     case = {"data": [[c, w[2]] for c, w in zip(cells, ws)], "rev": bool(spec["reverse"]), "na_last": bool(spec["na_last"])}
     try:
